@@ -3161,7 +3161,9 @@ class Gaussian(Preparation, Decomposition):
             for n, expr in enumerate(D[: self.ns]):
                 if np.abs(expr - 1) >= _decomposition_tol:
                     r = np.abs(np.log(expr) / 2)
-                    cmds.append(Command(Squeezed(r, 0), reg[n]))
+                    # position variance below vacuum: squeezed in x, otherwise squeezed in p
+                    phi = 0 if expr < 1 else np.pi
+                    cmds.append(Command(Squeezed(r, phi), reg[n]))
                 else:
                     cmds.append(Command(Vac, reg[n]))
 
